@@ -518,7 +518,7 @@ def notify_family(run, replay=None):
                                        'EVENTs are attributed to an action by fencing every open connection with its own request/response after the action (events are written synchronously by hc before the causing call returns)',
                                        'a closed connection cannot be observed receiving anything: observed white-box as "the context holds no session for it" and black-box as "a reconnect starts without subscriptions"',
                                        'ProgrammableSwitchEvent (event per press by contract) is outside the same-value alphabet'],
-                          rule_text='TLC-generated histories of connect / close / subscribe / unsubscribe / local set / remote write / read answered by an application getter / a change answered by a second change from inside the application's own callback (Nested) / local set racing a close over 3 connections and 3 characteristics on 2 accessories (edge mode, words, attack words per named guard, simulation); distinct = canonical abstract word; non-trivial = the design spec expects at least one EVENT in it',
+                          rule_text='TLC-generated histories of connect / close / subscribe / unsubscribe / local set / remote write / read answered by an application getter / a change answered by a second change from inside a callback of the application (Nested) / local set racing a close over 3 connections and 3 characteristics on 2 accessories (edge mode, words, attack words per named guard, simulation); distinct = canonical abstract word; non-trivial = the design spec expects at least one EVENT in it',
                           nontrivial=lambda b: any(sum(s.get('exp', {}).values()) > 0 for s in b['steps']),
                           sanity=sanity, extra_cov=extra)
 
@@ -1205,7 +1205,7 @@ def tlv8_family(run, replay=None):
         run.model_check('TLV8', 'TLV8_MC.cfg', workers=8)
         words = run.generate('TLV8Gen', cfgtext='CONSTANTS\n  MaxFrag = 3\n  Tags = {10, 11}\n  MaxLen = 7\n  MaxSets = %d\n  Weak = {}\nINIT Init\nNEXT Next\nINVARIANT EmitWord\nCHECK_DEADLOCK FALSE\n' % (3 if thorough else 2), timeout=900)
         attacks = []
-        for g in ["fragment_size"]:
+        for g in ["fragment_size", "empty_value_is_an_item"]:
             a = run.generate('TLV8Gen', cfgtext='CONSTANTS\n  MaxFrag = 3\n  Tags = {10, 11}\n  MaxLen = 7\n  MaxSets = 2\n  Weak = %s\nINIT Init\nNEXT Next\nINVARIANT NoAttack\nCHECK_DEADLOCK FALSE\n' % tla_set([g]), expect_violation=True)
             if not a:
                 raise ToolTrouble('no attack word for guard %s' % g)
